@@ -11,6 +11,9 @@ package gcsemu
 //@ ghostvar gcsReadObj int protocol
 //@ ghostvar gcsReadMetagen int protocol
 //@ ghostvar gcsValidEpoch epoch protocol
+// the key that the current critical section of the key-lock map holds (set for the callback of locks.Run): a store
+// mutation of bucket/name is only allowed while lockName(bucket, name) = bucket + "/" + name is that key (C07)
+//@ ghostvar gcsLockedKey string protocol
 
 //@ func validateConds
 //@   property C04 C07
